@@ -175,6 +175,10 @@ type Scenario struct {
 	Setup func(x *Ctx)
 	// PanicIsViolation: a panic in library code violates this property.
 	PanicIsViolation bool
+	// Parallel: probability of a parallel round (C20 only); IgnoreViolations:
+	// the oracles of the embedded workloads are not this property's business.
+	Parallel         float64
+	IgnoreViolations bool
 	// Twin: the scenario is executed twice with identical choices (variant ""
 	// and variant "fmt") and the two observation logs must be equal (C15).
 	Twin bool
@@ -284,8 +288,12 @@ func execute1(t *testing.T, spec RunSpec) (res RunResult) {
 				}
 			}
 		}()
-		synctest.Test(t, func(t *testing.T) {
-			runInBubble(t, sc, spec, &res)
+		// a sub-test per run: under -race the testing package fails (FailNow) the
+		// test in which a race was reported - that must not end the worker
+		t.Run("run", func(t *testing.T) {
+			synctest.Test(t, func(t *testing.T) {
+				runInBubble(t, sc, spec, &res)
+			})
 		})
 	}()
 	res.WallUs = time.Since(t0).Microseconds()
@@ -296,7 +304,7 @@ func execute1(t *testing.T, spec RunSpec) (res RunResult) {
 }
 
 func runInBubble(t *testing.T, sc *Scenario, spec RunSpec, res *RunResult) {
-	cfg := simrt.Config{Seed: spec.Seed, Replay: spec.Replay, KeepTrace: spec.KeepTrace, Horizon: sc.Horizon, MaxSteps: sc.Steps}
+	cfg := simrt.Config{Seed: spec.Seed, Replay: spec.Replay, KeepTrace: spec.KeepTrace, Horizon: sc.Horizon, MaxSteps: sc.Steps, Parallel: sc.Parallel, ParallelBudget: 40}
 	s := simrt.New(cfg)
 	x := &Ctx{S: s, Spec: spec, T: t, probes: map[string]int{}}
 	x.Net = simnet.New(s)
@@ -338,6 +346,10 @@ func runInBubble(t *testing.T, sc *Scenario, spec RunSpec, res *RunResult) {
 		}
 	}
 	res.Violations = x.viol
+	if sc.IgnoreViolations {
+		res.Violations = nil
+		x.harnessErr = ""
+	}
 	res.Tape = s.Tape()
 	res.Hash = s.Hash()
 	res.Steps = s.Step()
@@ -345,6 +357,9 @@ func runInBubble(t *testing.T, sc *Scenario, spec RunSpec, res *RunResult) {
 	res.Preempt = s.Preemptions
 	res.Faults = s.Faults
 	res.Probes = x.probes
+	if s.ParallelRounds > 0 {
+		res.Probes["parallel-rounds"] = s.ParallelRounds
+	}
 	res.NonTrivial = x.nonTrivial
 	res.Sample = x.sample
 	res.TwinLog = x.twinLog
